@@ -292,6 +292,26 @@ func (e *Enc) evalExpr(x Expr, env *Env) (TV, error) {
 		return e.evalExpr(n.X, c)
 	case *Unary:
 		if n.Op == "&" {
+			if se, isSel := n.X.(*SelE); isSel {
+				// &x.f : address of a field of a heap object
+				b, err := e.evalExpr(se.X, env)
+				if err != nil {
+					return TV{}, err
+				}
+				if b.T == nil {
+					return TV{}, fmt.Errorf("& of a field of an untyped value")
+				}
+				st, ok := deref(b.T).Underlying().(*types.Struct)
+				if !ok {
+					return TV{}, fmt.Errorf("&x.f needs a struct pointer")
+				}
+				for i := 0; i < st.NumFields(); i++ {
+					if st.Field(i).Name() == se.Name {
+						return TV{fmt.Sprintf("(fieldaddr %s %d)", b.S, i), sInt, types.NewPointer(st.Field(i).Type())}, nil
+					}
+				}
+				return TV{}, fmt.Errorf("no field %s", se.Name)
+			}
 			id, ok := n.X.(*Ident)
 			if !ok || env.lookup == nil {
 				return TV{}, fmt.Errorf("& needs a local variable name")
